@@ -10,3 +10,4 @@ pub mod statecheck;
 pub mod types;
 pub mod plan;
 pub mod faults;
+pub mod seeds;
